@@ -88,7 +88,7 @@ def setup_script(pool, c, with_dir=True):
         L.append(": > %s" % sq(text(n)))
     L += ["x=$X; e=; unset u; s=' a  b '; g='a*'; a=(\"$x\" 'b c'); z=()",
           ["set --", 'set -- "$x"', 'set -- "$x" ""', "set -- 'a b' \"$x\" c"][c[2] - 1],
-          "HOME=/h", "M() { printf 'R%s\\0' \"$1\"; }", "F() { printf '%s\\0' \"$#\" \"$@\"; }"]
+          "HOME='/h *'", "M() { printf 'R%s\\0' \"$1\"; }", "F() { printf '%s\\0' \"$#\" \"$@\"; }"]
     L.append("unset IFS" if ifs == ["UNSET"] else "IFS=%s" % ("$'" + "".join({"\n": "\\n", "\t": "\\t"}.get(ch, ch) for ch in text(ifs)) + "'"))
     return L
 
